@@ -251,6 +251,37 @@ impl World {
                 if !same(&a1, &a2) || !same(&r1, &r2) {
                     impure = Some("a reused Difficulty / cloned Performance gave two different results".to_owned());
                 }
+                // a builder that has already been *used* and is then reconfigured must behave like a fresh one with the same
+                // final configuration (nothing learnt during a calculation may stick to the value)
+                type Set = (&'static str, fn(Difficulty, rosu_pp::model::mode::GameMode) -> Difficulty);
+                let firsts: [Set; 4] = [
+                    ("mods(lazer Classic)", |d, m| d.mods(ModSpec::Classic(None).build(m))),
+                    ("mods(lazer DT x1.5)", |d, m| d.mods(ModSpec::Rate(1.5).build(m))),
+                    ("mods(lazer HT x0.8)", |d, m| d.mods(ModSpec::Rate(0.8).build(m))),
+                    ("mods(DT bits)", |d, _| d.mods(settings::DT)),
+                ];
+                let seconds: [Set; 8] = [
+                    firsts[0],
+                    firsts[1],
+                    firsts[2],
+                    firsts[3],
+                    ("clock_rate(1.3)", |d, _| d.clock_rate(1.3)),
+                    ("lazer(false)", |d, _| d.lazer(false)),
+                    ("ar(9, true)", |d, _| d.ar(9.0, true)),
+                    ("mods(HR bits)", |d, _| d.mods(settings::HR)),
+                ];
+                for (n1, s1) in firsts {
+                    let used = s1(Difficulty::new(), map.mode);
+                    let _ = used.calculate(map);
+                    let _ = used.strains(map);
+                    for (n2, s2) in seconds {
+                        let reconfigured = s2(used.clone(), map.mode).calculate(map);
+                        let fresh = s2(s1(Difficulty::new(), map.mode), map.mode).calculate(map);
+                        if impure.is_none() && !same(&reconfigured, &fresh) {
+                            impure = Some(format!("Difficulty::new().{n1}, used for a calculation, then .{n2}: differs from the same two setters on a value that was never used\n used then reconfigured: {reconfigured:?}\n fresh                 : {fresh:?}"));
+                        }
+                    }
+                }
                 format!("{a1:?} {r1:?}")
             }
         };
@@ -402,7 +433,7 @@ fn main() {
         return;
     }
 
-    let ctx = Ctx::from_env("C01");
+    let ctx = Ctx::from_env_caps("C01", 55, 1500);
     ctx.rule("universe 'bpm-hash-order': every timing set of <= 4 uninherited lines over 4 beat lengths (one rounding onto another) x gap patterns x 3 tail lengths; all k! iteration orders of the k distinct beat lengths through the seam, plus two calls under the hash map's own order; bpm() must be bit-identical. universe 'address-phase': difficulty / strains / performance / gradual on 3 long synthetic maps (600 sliders, 900 and 1000 objects) and the 4 fixtures, all reachable modes, 2 settings, under all 8 placement phases {0,8,..,56} modulo 64 of every heap buffer >= 64 bytes (helper binary with a phase-shifting global allocator): digests must equal those of phase 0. universe 'histories': every history (repetitions allowed) of depth <= 3 over the op pool (decode, bpm, convert x 3 entry points, difficulty, strains, performance, gradual difficulty / performance walks for 4 settings incl. Random with and without seed, mania under Invert / HoldOff / both on a map with chords, lock-step walks of two calculators, builder reuse) on 6 maps; oracle = each op's result digest equals the digest the same op yields as the only op of a fresh process (two fresh processes per op must agree with each other), maps passed by reference unchanged; non-trivial = more than one distinct beat length / history of length >= 2");
     ctx.assume("the fresh-process reference table is produced by this same checker binary started once per op and repetition");
 
